@@ -27,11 +27,20 @@
 (* border object of EVERY cell ("touch-merge").  Neither changes a border. *)
 (* Bug "TouchForgetsBorders": the rebuilt objects start empty (pinned      *)
 (* tree: CellBorder() in Cell._set_merge, and in Table.write).             *)
+(* MergeOver(o, len): merge_cells of a range that STRADDLES the line at    *)
+(* positions o..o+len-1: those edges are inside the range from now on and  *)
+(* show nothing (hidden), in the open document and in the file.            *)
+(* MergeOuter(o, len): a range whose OUTER edge is the line there: the     *)
+(* cells that own the edges become anchor / placeholders, borders stay.    *)
+(* Bug "AnchorShowsInner": the open document keeps showing a hidden edge;  *)
+(* Bug "MergeForgetsOuter": the placeholders start without the borders of  *)
+(* the cells they replace (both: pinned tree after F43).                   *)
 (***************************************************************************)
 EXTENDS Integers, Sequences, FiniteSets, TLC
 CONSTANTS N, Values, MaxStrokes, Bug
-VARIABLES edge, runs, openv, maxOrder, hist
-vars == <<edge, runs, openv, maxOrder, hist>>
+VARIABLES edge, runs, openv, maxOrder, hist,
+          hidden     \* edge positions that a later merge_cells put INSIDE a merged range: they show no border, whatever is drawn there
+vars == <<edge, runs, openv, maxOrder, hist, hidden>>
 NoBorder == "none"
 Covers(run, i) == i >= run.origin /\ i < run.origin + run.length
 \* what a reader of the file sees at position i
@@ -59,39 +68,58 @@ SortByOrigin(rs) == IF rs = <<>> THEN <<>> ELSE
       RECURSIVE Sort(_)
       Sort(s) == IF s = <<>> THEN <<>> ELSE Ins(Head(s), Sort(Tail(s)))
   IN Sort(rs)
+\* a stroke that STARTS on a hidden edge is refused as a whole (documented: RuntimeWarning "edge is merged; border not set")
 Stroke(o, len, v) ==
   /\ Len(hist) < MaxStrokes /\ o >= 1 /\ o + len - 1 <= N
-  /\ LET ord == IF Bug = "OrderBeforeBump" THEN maxOrder ELSE maxOrder + 1
+  /\ IF o \in hidden THEN UNCHANGED <<edge, runs, openv, maxOrder>> ELSE
+     LET ord == IF Bug = "OrderBeforeBump" THEN maxOrder ELSE maxOrder + 1
          p == PatchAll(runs, o, len, ord, v)
          setOrd == IF Bug = "StampAfterUpdate" THEN 0 ELSE ord           \* the order the open cells compare with
      IN /\ maxOrder' = maxOrder + 1
         /\ runs' = SortByOrigin(IF p[2] THEN p[1] ELSE Append(p[1], NewRun(o, len, ord, v)))
-        /\ edge' = [i \in 1..N |-> IF i >= o /\ i < o + len THEN v ELSE edge[i]]
+        /\ edge' = [i \in 1..N |-> IF i >= o /\ i < o + len /\ i \notin hidden THEN v ELSE edge[i]]
         /\ openv' = [i \in 1..N |-> IF i >= o /\ i < o + len /\ (openv[i].value = NoBorder \/ setOrd > openv[i].order)
                                       THEN [value |-> v, order |-> ord] ELSE openv[i]]
-  /\ hist' = Append(hist, [o |-> o, len |-> len, v |-> v])
+  /\ hist' = Append(hist, [o |-> o, len |-> len, v |-> v]) /\ UNCHANGED hidden
 Empty == /\ edge = [i \in 1..N |-> NoBorder] /\ runs = <<>> /\ openv = [i \in 1..N |-> [value |-> NoBorder, order |-> 0]]
-         /\ maxOrder = 1 /\ hist = <<>>
+         /\ maxOrder = 1 /\ hist = <<>> /\ hidden = {}
 Preloaded(v0) == /\ edge = [i \in 1..N |-> v0] /\ runs = <<NewRun(1, N, 1, v0)>> /\ openv = [i \in 1..N |-> [value |-> v0, order |-> 1]]
-                 /\ maxOrder = 1 /\ hist = <<[o |-> 0, len |-> 0, v |-> v0]>>           \* o = 0: "the line came with this border"
+                 /\ maxOrder = 1 /\ hist = <<[o |-> 0, len |-> 0, v |-> v0]>> /\ hidden = {}   \* o = 0: "the line came with this border"
 Init == Empty \/ \E v0 \in Values : Preloaded(v0)
 \* the document is loaded again from the file written after the last stroke: the open cells hold what the file shows, with the orders stored there
 OrderAt(rs, i) == LET cov == {k \in 1..Len(rs) : Covers(rs[k], i)} IN
                   IF cov = {} THEN 0 ELSE rs[CHOOSE k \in cov : \A j \in cov : rs[k].order >= rs[j].order].order
-Reopen == /\ Len(hist) < MaxStrokes /\ hist # <<>> /\ hist[Len(hist)].v \notin {"reopen", "touch-write", "touch-merge"}
+Reopen == /\ Len(hist) < MaxStrokes /\ hist # <<>> /\ hist[Len(hist)].v \notin {"reopen", "touch-write", "touch-merge", "touch-merge-over", "touch-merge-outer"}
           /\ openv' = [i \in 1..N |-> [value |-> FileView(runs, i), order |-> OrderAt(runs, i)]]
-          /\ UNCHANGED <<edge, runs, maxOrder>>
+          /\ UNCHANGED <<edge, runs, maxOrder, hidden>>
           /\ hist' = Append(hist, [o |-> 0, len |-> 0, v |-> "reopen"])
 Touches == {"touch-write", "touch-merge"}
 Touch(k) == /\ Len(hist) < MaxStrokes /\ hist # <<>> /\ hist[Len(hist)].v \notin Touches
             /\ openv' = IF Bug = "TouchForgetsBorders" THEN [i \in 1..N |-> [value |-> NoBorder, order |-> 0]] ELSE openv
-            /\ UNCHANGED <<edge, runs, maxOrder>>
+            /\ UNCHANGED <<edge, runs, maxOrder, hidden>>
             /\ hist' = Append(hist, [o |-> 0, len |-> 0, v |-> k])
+\* at most one merge on the line per history (two ranges on one line could overlap)
+NoMergeYet == \A k \in 1..Len(hist) : hist[k].v \notin {"touch-merge-over", "touch-merge-outer"}
+Span(o, len) == {i \in 1..N : i >= o /\ i < o + len}          \* (not o..o+len-1: TLC would print the state as an interval)
+MergeOver(o, len) == /\ Len(hist) < MaxStrokes /\ hist # <<>> /\ NoMergeYet /\ o >= 1 /\ o + len - 1 <= N
+                     /\ hidden' = hidden \cup Span(o, len)
+                     /\ edge' = [i \in 1..N |-> IF i \in Span(o, len) THEN NoBorder ELSE edge[i]]
+                     /\ UNCHANGED <<runs, openv, maxOrder>>
+                     /\ hist' = Append(hist, [o |-> o, len |-> len, v |-> "touch-merge-over"])
+MergeOuter(o, len) == /\ Len(hist) < MaxStrokes /\ hist # <<>> /\ NoMergeYet /\ o >= 1 /\ o + len - 1 <= N
+                      /\ openv' = IF Bug = "MergeForgetsOuter" THEN [i \in 1..N |-> IF i \in Span(o, len) /\ i > o THEN [value |-> NoBorder, order |-> 0] ELSE openv[i]]
+                                   ELSE openv
+                      /\ UNCHANGED <<edge, runs, maxOrder, hidden>>
+                      /\ hist' = Append(hist, [o |-> o, len |-> len, v |-> "touch-merge-outer"])
 Next == \/ \E o \in 1..N, len \in 1..N, v \in Values : Stroke(o, len, v)
         \/ Reopen
         \/ \E k \in Touches : Touch(k)
+        \/ \E o \in 1..(N - 1) : MergeOver(o, 2) \/ MergeOuter(o, 2)
 Spec == Init /\ [][Next]_vars
-NoHist == <<edge, runs, openv, maxOrder>>
-FileAgrees == \A i \in 1..N : FileView(runs, i) = edge[i]               \* the saved file shows the last writer
-OpenAgrees == \A i \in 1..N : openv[i].value = edge[i]                  \* so does the open document
+NoHist == <<edge, runs, openv, maxOrder, hidden>>
+\* what a reader reports: nothing on an edge inside a merged range
+FileShown(i) == IF i \in hidden THEN NoBorder ELSE FileView(runs, i)
+OpenShown(i) == IF i \in hidden /\ Bug # "AnchorShowsInner" THEN NoBorder ELSE openv[i].value
+FileAgrees == \A i \in 1..N : FileShown(i) = edge[i]                    \* the saved file shows the last writer
+OpenAgrees == \A i \in 1..N : OpenShown(i) = edge[i]                    \* so does the open document
 ====
